@@ -204,7 +204,7 @@ def run_shard(spec, ctx):
     logging.disable(logging.WARNING)  # generators warn about tiny slices etc.
     with small_natural_pictures():
         run_given(G.codec_features(regular=True, max_size=16, max_depth_bits=16, max_dwt=2, max_dwt_ho=1, max_slices=3),
-                  body, ctx, ctx.pick(3, 60))
+                  body, ctx, ctx.pick(3, 19))
 
 
 def replay(data, col):
